@@ -296,6 +296,8 @@ func extractDMVersions(c *Ctx, r *Report, rule string) []dmVerRow {
 }
 
 func checkC08(c *Ctx, r *Report) {
+	checkSharedStores(c, r, "datamatrix", 10) // encoder / decoder working storage is per call (also C18)
+
 	r.exhaustive = true
 	if msg := refDMSelfCheck(); msg != "" {
 		r.Fail("CHECKER", "refdata", "", "checker-failure", msg)
